@@ -131,6 +131,19 @@ func (w *schedWorld) stateChange(b *simBot, next bgp.FSMState, reason fsmStateRe
 	p.fsm.state.Store(next)
 }
 
+// stateChangeOn is stateChange for a captured peer object: a thread that plays the FSM goroutine of a peer
+// acts on THAT peer, whoever holds its address by the time the thread runs, and - like fsmHandler.loop, which
+// tests ctx.Err() before the callback - does nothing once the peer's FSM has been asked to stop.
+func (w *schedWorld) stateChangeOn(p *peer, next bgp.FSMState, reason fsmStateReasonType) {
+	if p == nil || w.stopped[p] {
+		return
+	}
+	r := newfsmStateReason(reason, nil, nil)
+	p.fsm.stateChange(next, r)
+	p.fsm.h.callback(&fsmMsg{MsgType: fsmMsgStateChange, MsgData: next, StateReason: r})
+	p.fsm.state.Store(next)
+}
+
 func (w *schedWorld) establish(b *simBot) {
 	w.prepare(b)
 	w.stateChange(b, bgp.BGP_FSM_ESTABLISHED, fsmOpenMsgNegotiated)
